@@ -108,3 +108,14 @@ Definition dict_relations (d : list dentry) : list (str * str) :=
   flat_map (fun e => map (fun p => (p, de_name e)) (match de_parents e with Some ps => ps | None => [] end)) d.
 Definition df_relations (rows : list dfrow) : list (str * str) :=
   flat_map (fun r => match dr_parent r with Some p => [(p, dr_name r)] | None => [] end) rows.
+
+(* ------------------------------------------------------------------------------------------- *)
+(* Prop level: a relation list, read as a graph on names, contains a cycle *)
+Inductive NReach (rel : list (str * str)) : str -> str -> Prop :=
+| NR1 : forall a b, In (a, b) rel -> NReach rel a b
+| NRS : forall a c b, In (a, c) rel -> NReach rel c b -> NReach rel a b.
+Definition HasCycle (rel : list (str * str)) : Prop := exists s, NReach rel s s.
+
+(* a rebuilt node table has the same names and the same edges (by name) as the graph g *)
+Definition SameNames (g : dag) (names : list str) : Prop :=
+  NoDup names /\ forall s, In s names <-> exists y, y < dsize g /\ name g y = s.
